@@ -117,6 +117,43 @@ func vpKeySetFile(set jwk.Set) string {
 	return f.Name()
 }
 
+// vpKeySetFileBroken: like vpKeySetFile, but the file also holds, at index
+// `at` of its keys, an entry the JOSE library cannot parse (an EC key without
+// its y coordinate) that carries the id `kid`. A negative index adds nothing.
+func vpKeySetFileBroken(set jwk.Set, at int, kid string) string {
+	if at < 0 {
+		return vpKeySetFile(set)
+	}
+	b, err := json.Marshal(set)
+	if err != nil {
+		vpOutside("cannot serialise the key set natively: " + err.Error())
+	}
+	var doc struct {
+		Keys []json.RawMessage `json:"keys"`
+	}
+	if err := json.Unmarshal(b, &doc); err != nil {
+		vpOutside("cannot re-read the key set natively: " + err.Error())
+	}
+	if at > len(doc.Keys) {
+		at = len(doc.Keys)
+	}
+	entry := map[string]any{"kty": "EC", "crv": "P-521", "alg": "ES512", "x": "AA"}
+	if kid != "" {
+		entry["kid"] = kid
+	}
+	eb, _ := json.Marshal(entry)
+	doc.Keys = append(doc.Keys[:at], append([]json.RawMessage{eb}, doc.Keys[at:]...)...)
+	b, _ = json.Marshal(doc)
+	f, err := os.CreateTemp("", "vp-jwks-*.json")
+	if err != nil {
+		vpOutside("cannot create temp file")
+	}
+	f.Write(b)
+	f.Close()
+	vpTempFiles = append(vpTempFiles, f.Name())
+	return f.Name()
+}
+
 var vpTempFiles []string
 
 func vpCleanup() {
